@@ -79,7 +79,7 @@ structure AutoRes where
   ins : List Coin
   change : Option (String × Nat)     -- (address, amount)
   fee : Nat
-  deriving Repr, Inhabited
+  deriving Repr, Inhabited, DecidableEq
 
 /-- the inner `for` of autoConstructTxInAndChangeTxOut (selection + change, `adj` retry).
     Returns (selection, change output, txOutLen). -/
@@ -180,7 +180,7 @@ structure ManualRes where
   outs : List (String × Nat)         -- requested outputs after fee subtraction
   change : Nat                       -- 0 = no change output
   fee : Nat
-  deriving Repr, Inhabited
+  deriving Repr, Inhabited, DecidableEq
 
 /-- constructTxOut: dust check over the requested outputs, then the change -/
 def dustCheck (newA : List (String × Nat)) (change : Nat) : Except Err Unit :=
